@@ -1509,12 +1509,13 @@ class Stream(AbstractStream):
             else:
                 self._imol.mix_from([streams[0]._imol])
         else:
+            # Inlet enthalpies are read before the pressure of self (possibly an inlet) is lowered
+            if energy_balance: H = sum([i.H for i in streams], Q)
             self.P = P = min([i.P for i in streams])
             if conserve_phases:
                 phases = self.phase + ''.join([i.phase for i in others])
                 self.phases = phases
             if vle:
-                if energy_balance: H = sum([i.H for i in streams], Q)
                 self._imol.mix_from([i._imol for i in streams])
                 if energy_balance: 
                     self.vle(H=H, P=P)
@@ -1523,7 +1524,6 @@ class Stream(AbstractStream):
                 self.reduce_phases()
             else:
                 if energy_balance: 
-                    H = sum([i.H for i in streams], Q)
                     self._imol.mix_from([i._imol for i in streams])
                     if conserve_phases: 
                         self.H = H
